@@ -169,6 +169,12 @@ def r2(repo, chk):
     uni = Fn(repo, H3 + "_receive_stream_data_uni")
     resumes = [c for c in uni.calls(name="self._handle_request_or_push_frame") if get_kw(c, "frame_data") is not None and norm(get_kw(c, "frame_data")) == "None"]
     chk.ob("R2", "the unblock path resumes blocked streams", len(resumes) >= 1, "", uni.loc(uni.node))
+    # the variable that holds the resumed stream in the unblock loop (the reference rebinds the parameter `stream`)
+    svs = {norm(get_kw(c, "stream", 2)) for c in resumes if get_kw(c, "stream", 2) is not None}
+    S = svs.pop() if len(svs) == 1 else "stream"
+    if resumes:
+        defs = [norm(v) for st, t, v in uni.assigns(chain=S) if _loop_of(st) is not None and _loop_of(st) is _loop_of(resumes[0])]
+        chk.ob("R2", "the resumed stream is looked up from the decoder's unblocked stream ids", len(defs) == 1 and defs[0].startswith("self._stream["), f"{S} bound by {defs}", uni.loc(resumes[0]))
     resumed = set()
     dynamic = False
     for c in resumes:
@@ -187,7 +193,7 @@ def r2(repo, chk):
     adds = [st for st, t, v in rr.assigns(chain="stream.buffer") if isinstance(st, ast.AugAssign)]
     ok = len(gate) >= 1 and bool(adds) and all(rr.before(a, gate[0]) for a in adds)
     chk.ob("R2", "data arriving for a blocked stream is buffered, not parsed", ok, "", rr.loc(rr.node))
-    ub = [st for st, t, v in uni.assigns(chain="stream.blocked") if isinstance(v, ast.Constant) and v.value is False]
+    ub = [st for st, t, v in uni.assigns(chain=f"{S}.blocked") if isinstance(v, ast.Constant) and v.value is False]
     ok = len(ub) == 1 and all(uni.before(c, ub[0]) for c in resumes)
     chk.ob("R2", "a stream is unblocked only after its pending frame was resumed", ok, "", uni.loc(uni.node))
     if dynamic:
@@ -195,7 +201,7 @@ def r2(repo, chk):
         rec = [st for st, t, v in rr.assigns(chain="stream.blocked_frame_type") if norm(v) == "frame_type" and any(st in h.body for h in hs)]
         chk.ob("R2", "the kind of the blocked frame is recorded when it blocks", len(rec) == 1, "", rr.loc(rr.node))
         for c in resumes:
-            chk.ob("R2", "the unblock path resumes with the recorded kind", norm(get_kw(c, "frame_type")) == "stream.blocked_frame_type", "", uni.loc(c))
+            chk.ob("R2", "the unblock path resumes with the recorded kind", norm(get_kw(c, "frame_type")) == f"{S}.blocked_frame_type", "", uni.loc(c))
         for c in decs:
             a = c.args[1] if len(c.args) > 1 else None
             txt = norm(a) if a is not None else ""
@@ -216,7 +222,7 @@ def r2(repo, chk):
         # (c) in the unblock loop, the per-frame blocked state is cleared before parsing continues: the continued parse may
         #     block again and record new state, which a later clear would wipe
         cont_calls = [c for c in uni.calls(name="self._receive_request_or_push_data")]
-        clears = [st for st, t, v in uni.assigns(suffix="blocked_frame_type") + uni.assigns(suffix="blocked_frame_size") + uni.assigns(suffix="blocked") if norm(t).startswith("stream.blocked") and isinstance(v, ast.Constant) and v.value in (None, False)]
+        clears = [st for st, t, v in uni.assigns(suffix="blocked_frame_type") + uni.assigns(suffix="blocked_frame_size") + uni.assigns(suffix="blocked") if norm(t).startswith(f"{S}.blocked") and isinstance(v, ast.Constant) and v.value in (None, False)]
         loops = {id(_loop_of(st)) for st in clears}
         cont_calls = [c for c in cont_calls if id(_loop_of(c)) in loops]
         ok = len(clears) >= 3 and len(loops) == 1 and None not in [_loop_of(st) for st in clears] and bool(cont_calls) and all(st.lineno < c.lineno for st in clears for c in cont_calls)
@@ -226,7 +232,7 @@ def r2(repo, chk):
     # end-of-stream is attached to the frame that really is the last thing of the stream: nothing buffered behind it
     for c in resumes:
         se = get_kw(c, "stream_ended")
-        chk.ob("R2", "a resumed frame carries end-of-stream only if the stream ended and nothing is buffered behind the frame", se is not None and norm(se) == "stream.receiving_ended and (not stream.buffer)", f"stream_ended={norm(se) if se is not None else None}: end-of-stream would be reported before (and again after) the buffered frames, depending on when the encoder stream arrived", uni.loc(c))
+        chk.ob("R2", "a resumed frame carries end-of-stream only if the stream ended and nothing is buffered behind the frame", se is not None and norm(se) == f"{S}.receiving_ended and (not {S}.buffer)", f"stream_ended={norm(se) if se is not None else None}: end-of-stream would be reported before (and again after) the buffered frames, depending on when the encoder stream arrived", uni.loc(c))
     for c in rr.calls(name="self._handle_request_or_push_frame"):
         se = get_kw(c, "stream_ended")
         if _loop_of(c) is not None:
@@ -235,7 +241,7 @@ def r2(repo, chk):
     rets = [r for r in ie.returns() if r.value is not None]
     ok = bool(rets) and all("not self.blocked" in norm(r.value) and " or " not in norm(r.value) for r in rets)
     chk.ob("R2", "a blocked stream is never discarded (is_ended requires not blocked)", ok, "the stream object of a blocked request is deleted when both directions finished; the unblock path then fails and the response events are lost - only when the encoder stream arrives late", ie.loc(ie.node))
-    cont = [c for c in uni.calls(name="self._receive_request_or_push_data") if ("stream.buffer", True) in uni.guard_atoms(c)]
+    cont = [c for c in uni.calls(name="self._receive_request_or_push_data") if (f"{S}.buffer", True) in uni.guard_atoms(c) and c.args and norm(c.args[0]) == S]
     chk.ob("R2", "bytes buffered while blocked are parsed after the resume", len(cont) >= 1, "", uni.loc(uni.node))
 
 
@@ -321,8 +327,13 @@ def r4(repo, chk):
     reset = [st for st, t, v in rr.assigns(chain="stream.frame_size") if isinstance(v, ast.Constant) and v.value is None and ("stream.frame_size", False) in rr.lexical_guards(st, expand=False)]
     chk.ob("R4", "when a frame is complete the parser returns to the frame-header state", len(reset) == 1, "", rr.loc(rr.node))
     # the DATA shortcut only applies in the middle of a DATA frame
-    sc = [st for st in rr.stmts(lambda s: isinstance(s, ast.If)) if "stream.frame_type == FrameType.DATA" in norm(st.test) and "len(stream.buffer) < stream.frame_size" in norm(st.test)]
-    ok = len(sc) == 1 and "stream.frame_size is not None" in norm(sc[0].test) and any(norm(s) == "stream.buffer = b''" for s in sc[0].body) and isinstance(sc[0].body[-1], ast.Return)
+    sc = [st for st in dec if norm(st.value) == "len(stream.buffer)"]
+    ok = len(sc) == 1
+    if ok:
+        at = rr.guard_atoms(sc[0])
+        ok = all(natom(a) in at for a in ("stream.frame_type == FrameType.DATA", "stream.frame_size is not None", "len(stream.buffer) < stream.frame_size"))
+        blk = rr.block_of(sc[0])
+        ok = ok and any(norm(s) == "stream.buffer = b''" for s in blk) and isinstance(blk[-1], ast.Return)
     chk.ob("R4", "the DATA shortcut applies only inside a DATA frame whose remainder exceeds the buffered bytes, and empties the buffer", ok, "", rr.loc(rr.node))
     ended = [c for c in rr.calls(name="self._handle_request_or_push_frame")]
     ok = len(ended) == 1 and norm(get_kw(ended[0], "stream_ended")) == "stream.receiving_ended and buf.eof()"
